@@ -27,7 +27,7 @@ TRIAGE = {
  'M0322': EQ + "width entry of an unknown-size master is never read", 'M0403': EQ + "byte order of a one-byte integer", 'M0406': EQ + "byte order of a one-byte integer", 'M0452': EQ + "byte order of a one-byte integer", 'M0455': EQ + "byte order of a one-byte integer",
  'M0496': "HOLE, closed: a Utf8 element too long for a requested 1-byte size field was written with a wider field instead of being refused; C09 (c') / (c'') now ask that a width is honoured or the call refused",
  'M0563': EQ + "UnexpectedClosingTag.expected_id is not pinned", 'M0813': EQ + "the value -2^(7L-1) is a declared don't-care of C15", 'M0842': EQ + "the value -2^(7L-1) is a declared don't-care of C15", 'M0927': EQ + "the dropped mask bit is shifted out for every length",
- 'M1124': EQ + "default buffer length", 'M1135': EQ + "larger async transfer buffer", 'M1137': EQ + "larger async transfer buffer", 'M1142': EQ + "second half of an error message", 'M1154': EQ + "the parent is validated on its own turn anyway",
+ 'M1124': EQ + "default buffer length", 'M1123': EQ + "default buffer length (1088 bytes)", 'M0286': EQ + "size 16383 written with a 4-byte instead of a 3-byte field (no property pins the default width)", 'M0298': "out of reach: sizes >= 2^35-1", 'M0302': "out of reach: sizes >= 2^42-1", 'M0808': EQ + "the range check before the loop guarantees that width 8 fits", 'M1126': EQ + "default buffer length", 'M0615': EQ + "assertion that cannot fail", 'M0912': EQ + "the extra mask bit is shifted out for every length", 'M1135': EQ + "larger async transfer buffer", 'M1137': EQ + "larger async transfer buffer", 'M1142': EQ + "second half of an error message", 'M1154': EQ + "the parent is validated on its own turn anyway",
 }
 out = {'mutants_generated': len(json.load(open(sys.argv[1].replace('mut_sel', 'mutants')))) if os.path.exists(sys.argv[1].replace('mut_sel', 'mutants')) else None,
        'mutants_scheduled': len(muts), 'evaluated': len(res), 'by_status': dict(collections.Counter(r['status'] for r in res.values())),
